@@ -16,7 +16,7 @@ static char tmpdir[256];
 
 /* ---- PNG round trip / from_str (well-formed input, in process) ---- */
 static void roundtrip_case(void) {
-  static const int NC[] = {1, 2, 3, 4, 5, 6, 7, 8, 9, 15, 16, 17, 31, 33, 63, 64, 65, 71, 100, 127, 128, 129, 130, 200};
+  static const int NC[] = {1, 2, 3, 4, 5, 6, 7, 8, 9, 15, 16, 17, 31, 33, 63, 64, 65, 71, 100, 127, 128, 129, 192, 256};
   int n = NC[vh_randint(0, 23)], m = vh_randint(1, 40);
   if (vh_randint(0, 5) == 0) n = vh_randint(1, 300);
   mzd_t *A = vh_mk_kind(m, n, vh_pick((int[]){0, 0, 1, 2, 3, 5, 6}, 7));
@@ -231,12 +231,16 @@ static void png_foreign_case(int depth, int ctype, int interlace, int mut) {
 }
 
 int fam_io(const vh_args_t *a) {
-  vh_nofork = 1;
   snprintf(tmpdir, sizeof tmpdir, "%s.tmp.%d", a->out, (int)getpid());
   mkdir(tmpdir, 0755);
   long idx = 0;
   int nrt = a->cases ? a->cases : (a->tier ? 1500 : 300);
-  for (int t = 0; t < nrt; t++, idx++) if (VH_SHARD(a, idx)) { vh_case_seed(a, idx); if (t % 4 == 3) from_str_case(); else roundtrip_case(); }
+  for (int t = 0; t < nrt; t++, idx++) if (VH_SHARD(a, idx)) {
+    vh_case_seed(a, idx);
+    VH_CASE(idx)
+    if (t % 4 == 3) from_str_case(); else roundtrip_case();
+    VH_CASE_END
+  }
   const char *jf = strstr(a->extra, "jcf=");
   if (jf) {
     FILE *f = fopen(jf + 4, "r");
